@@ -8,10 +8,10 @@
           M_index_init    = Index.__init__                      index.py:457-478
           M_index_auto    = IndexAutoFactory (loc_is_iloc=True) index_auto.py:20-41  (no map at all)
           M_loc_to_iloc   = Index.loc_to_iloc / LocMap.loc_to_iloc element, list and slice keys
-                                                                index.py:193-265, 981-1015
-          M_contains      = Index.__contains__                  index.py:1155-1162
+                                                                index.py:193-265, 981-1022
+          M_contains      = Index.__contains__                  index.py:1162-1169
           go / M_go_*     = _IndexGOMixin: _labels_mutable, _positions_mutable_count, _recache,
-                            append / extend / _update_array_cache   index.py:1411-1465
+                            append / extend / _update_array_cache   index.py:1418-1477
    Labels are drawn from a type C with decidable equality `ceqb`; a KEY presented by the caller is a
    pair (c, int_typed): the label it is equal to (Python ==/hash) and whether its Python class is an
    integer type (int, bool, numpy integer) -- the only thing besides equality the code looks at
@@ -125,7 +125,7 @@ Section Flat.
   (* the integer a key denotes on the map-less paths: numpy accepts int/bool/np.integer only *)
   Definition key_int (k : key) : option Z := if int_typed k then to_Z (fst k) else None.
 
-  (* `self._positions[key]` followed by `return key` (index.py:993-1013) on an arange(n):
+  (* `self._positions[key]` followed by `return key` (index.py:995-1020) on an arange(n):
      an int is bounds-checked by NumPy with negative wrap-around (and the KEY, not the element, is
      returned); a bool is a NumPy mask scalar and never raises; None is np.newaxis and never raises
      (the key None is returned: not a position at all); anything else is an IndexError -> KeyError *)
@@ -151,7 +151,7 @@ Section Flat.
   Definition positions_getitem (n : Z) (k : key) : res Z :=
     if gen_auto_lookup_validates then positions_getitem_valid n k else positions_getitem_raw n k.
 
-  (* Index.loc_to_iloc, element key.  index.py:989-1015 (no map: self._positions[key], so a negative
+  (* Index.loc_to_iloc, element key.  index.py:989-1022 (no map: self._positions[key], so a negative
      integer in [-n, 0) is answered) and LocMap.loc_to_iloc index.py:262-265 (map lookup) *)
   Definition M_loc_to_iloc (ix : index) (k : key) : res Z :=
     match ix_map ix with
@@ -159,7 +159,7 @@ Section Flat.
     | None => positions_getitem (zlen (ix_labels ix)) k
     end.
 
-  (* Index.__contains__  index.py:1155-1162 *)
+  (* Index.__contains__  index.py:1162-1169 *)
   Definition M_contains (ix : index) (k : key) : bool :=
     match ix_map ix with
     | Some m => match am_get m (fst k) with Some _ => true | None => false end
@@ -258,7 +258,7 @@ Section Flat.
   Definition M_go_auto (n : nat) : go :=
     let l := map of_Z (iota n) in mk_go l l None (zlen l) false (zlen l).
 
-  (* _update_array_cache  index.py:1411-1424 *)
+  (* _update_array_cache  index.py:1418-1431 *)
   Definition M_go_recache (g : go) : go :=
     if g_recache g then mk_go (g_mut g) (g_mut g) (g_map g) (g_count g) false (g_count g) else g.
 
@@ -309,7 +309,7 @@ Section Flat.
                end
       end.
 
-  (* extend  index.py:1459-1465: append one by one, the first failure propagates (values already
+  (* extend  index.py:1471-1477: append one by one, the first failure propagates (values already
      appended stay) *)
   Fixpoint M_go_extend (g : go) (ks : list key) : go * res unit :=
     match ks with
@@ -340,7 +340,7 @@ Section Flat.
     match g_map g with
     | Some m => match am_get m (fst k) with Some i => Ok i | None => Err "KeyError" end
     | None =>  (* self._positions[key]; whether a stale cache is refreshed first is read from the source
-                  (index.py:989-993; gen_loc_to_iloc_recaches = false on the unrepaired tree) *)
+                  (index.py:989-991; gen_loc_to_iloc_recaches = true since fix 41fcfc5) *)
         positions_getitem (if gen_loc_to_iloc_recaches then g_count g else g_npos g) k
     end.
 
